@@ -667,7 +667,12 @@ impl fmt::Display for XmlAttribute {
             value.push_str(&format!("{}", v));
         }
 
-        write!(f, "{}={}", self.local_name.as_str(), escape(value.as_str()))
+        write!(
+            f,
+            "{}={}",
+            self.local_name.as_str(),
+            escape_attribute(value.as_str())
+        )
     }
 }
 
@@ -4334,6 +4339,16 @@ fn escape(value: &str) -> String {
         format!("'{}'", value)
     } else {
         format!("\"{}\"", value)
+    }
+}
+
+/// Quote an attribute value.  A value that contains both quote characters cannot be delimited
+/// by either of them as it is: the double quotes are written as references.
+fn escape_attribute(value: &str) -> String {
+    if value.contains('"') && value.contains('\'') {
+        format!("\"{}\"", value.replace('"', "&quot;"))
+    } else {
+        escape(value)
     }
 }
 
